@@ -17,12 +17,13 @@ trap '[ -n "${KEEP_SCRATCH:-}" ] && echo "scratch kept: $S" || rm -rf "$S"' EXIT
 mkdir -p "$S/sim" "$S/expsim" "$S/out"
 cp -r /verif/sim/vcommon /verif/sim/ptpsim /verif/sim/Cargo.toml /verif/sim/Cargo.lock "$S/sim/" 2>/dev/null
 ( cd /verif/expsim && cp -r Cargo.toml Cargo.lock .cargo simtokio shadow-statime-linux expsim "$S/expsim/" )
+TARGET="${SCRATCH_TARGET:-$S/target}"   # SCRATCH_TARGET=<dir>: keep and reuse one target dir across calls
 grep -rlE '/repo|/verif/' "$S" --include=Cargo.toml --include=build.rs --include=config.toml | while read -r f; do
-  sed -i -e "s#/repo/#$TREE/#g" -e "s#\"/repo\"#\"$TREE\"#g" -e "s#/verif/sim/#$S/sim/#g" -e "s#/verif/target/expsim#$S/target#g" "$f"
+  sed -i -e "s#/repo/#$TREE/#g" -e "s#\"/repo\"#\"$TREE\"#g" -e "s#/verif/sim/#$S/sim/#g" -e "s#/verif/target/expsim#$TARGET#g" "$f"
 done
 cd "$S/expsim" || exit 2
 if ! cargo build --release --offline >"$S/build.log" 2>&1; then tail -40 "$S/build.log"; echo "HARNESS-ERROR: scratch build failed"; exit 2; fi
-EXPSIM_OUT_ROOT="$S/out" "$S/target/release/expsim" "$@"
+EXPSIM_OUT_ROOT="$S/out" "$TARGET/release/expsim" "$@"
 rc=$?
 if [ -n "${SCRATCH_COPY_OUT:-}" ]; then mkdir -p "$SCRATCH_COPY_OUT" && cp -r "$S/out/." "$SCRATCH_COPY_OUT/"; fi
 exit $rc
